@@ -45,6 +45,10 @@ pub enum Op {
     /// flows 0, 1 and 2 are used within a few milliseconds of each other and then all stay idle for
     /// 12 or 13 eighths of T: they expire at the same timer tick
     IdleTogether(u8),
+    /// a flow of its own whose destination goes away and comes back on the same port: the pending
+    /// ICMP error surfaces on the flow's read path (a socket error confined to that flow), then
+    /// another datagram is sent on the same pair
+    DestRestart(u8),
 }
 
 #[derive(Serialize, Deserialize, Debug, Clone)]
@@ -199,6 +203,7 @@ async fn run_history(c: &Case, shard_tag: u32) -> Verdict {
         .collect();
     let mut seq = 0u32;
     let mut closed_last: Option<Instant> = None;
+    let mut restart_last: Vec<Instant> = vec![];
     let mut client_got: Vec<(SocketAddr, SocketAddr, Vec<u8>)> = vec![];
     let mut expected_replies: Vec<(SocketAddr, SocketAddr, Vec<u8>)> = vec![];
     // replies whose delivery the model cannot decide (a port-53 flow whose query count is
@@ -382,6 +387,57 @@ async fn run_history(c: &Case, shard_tag: u32) -> Verdict {
                     tokio::time::sleep(Duration::from_millis(5)).await;
                 }
             }
+            Op::DestRestart(_) => {
+                seq += 1;
+                let src: SocketAddr = format!("10.9.7.7:{}", 7000 + seq % 1000).parse().unwrap();
+                let Ok(peer1) = UdpSocket::bind("127.0.0.1:0").await else { continue };
+                let dst = peer1.local_addr().unwrap();
+                let mut buf = vec![0u8; 2048];
+                // 1. the flow comes up
+                send_record(&mut client, src, dst, format!("z1-{}", seq).as_bytes()).map_err(herr)?;
+                let Ok(Ok((_, outbound))) = tokio::time::timeout(Duration::from_millis(150), peer1.recv_from(&mut buf)).await else {
+                    return viol("udp:datagram-not-delivered", format!("step {}: the first datagram of a new flow {} -> {} never reached its destination", step, src, dst));
+                };
+                // 2. the destination goes away; the next datagram earns an ICMP error
+                drop(peer1);
+                send_record(&mut client, src, dst, format!("z2-{}", seq).as_bytes()).map_err(herr)?;
+                tokio::time::sleep(Duration::from_millis(30)).await;
+                // 3. it comes back on the same port and sends a datagram to the flow's socket, whose
+                //    read now reports the pending error (the datagram itself may or may not get through)
+                let Ok(peer2) = UdpSocket::bind(dst).await else {
+                    engine::bump("udp-port-taken-meanwhile", 1);
+                    restart_last.push(Instant::now());
+                    continue;
+                };
+                let hello = format!("z-back-{}", seq).into_bytes();
+                let _ = peer2.send_to(&hello, outbound).await;
+                expected_replies.push((dst, src, hello.clone()));
+                optional_replies.insert(hello);
+                tokio::time::sleep(Duration::from_millis(40)).await;
+                // 4. the pair still works - through the old flow if it survived, a fresh one otherwise
+                if let Err(e) = send_record(&mut client, src, dst, format!("z3-{}", seq).as_bytes()) {
+                    return viol("udp:multiplexer-terminated", format!("step {}: the multiplexer stream was closed by the endpoint after a socket error on one flow ({})", step, e));
+                }
+                restart_last.push(Instant::now());
+                let mut arrived = false;
+                let deadline = Instant::now() + Duration::from_millis(150);
+                while let Ok(Ok((n, from))) = tokio::time::timeout_at(tokio::time::Instant::from_std(deadline), peer2.recv_from(&mut buf)).await {
+                    if buf[..n].starts_with(b"z3-") {
+                        engine::bump(if from == outbound { "flow-survived-the-destination-restart" } else { "flow-replaced-after-the-socket-error" }, 1);
+                        arrived = true;
+                        break;
+                    }
+                }
+                ensure!(
+                    arrived,
+                    "udp:datagram-after-socket-error-lost",
+                    "step {}: flow {} -> {}: its destination went away and came back on the same port (socket error on the flow's read path); the next datagram on the same pair never arrived (multiplexer: {:?})",
+                    step,
+                    src,
+                    dst,
+                    client.closed.lock().unwrap().clone()
+                );
+            }
             Op::SendClosedPort => {
                 let src: SocketAddr = "10.9.8.8:888".parse().unwrap();
                 for _ in 0..3 {
@@ -464,7 +520,8 @@ async fn run_history(c: &Case, shard_tag: u32) -> Verdict {
         let g = gauge(&world) - base;
         // the flow to the closed port is a flow like any other until its error is noticed or it
         // expires: it may hold a socket for up to 1.3 T + tick after its last datagram
-        let slack = closed_last.is_some_and(|l: Instant| l.elapsed() < t * 13 / 10 + tick + Duration::from_millis(40)) as usize;
+        let slack = closed_last.is_some_and(|l: Instant| l.elapsed() < t * 13 / 10 + tick + Duration::from_millis(40)) as usize
+            + restart_last.iter().filter(|l| l.elapsed() < t * 13 / 10 + tick + Duration::from_millis(40)).count();
         ensure!(
             g >= sure_alive as f64 && g <= (sure_alive + maybe + slack) as f64,
             if g > (sure_alive + maybe + slack) as f64 { "udp:sockets-not-released" } else { "udp:socket-count-below-live-flows" },
@@ -514,7 +571,7 @@ impl Suite for FlowSuite {
         "flow-histories"
     }
     fn rule(&self) -> String {
-        "histories of 3-16 operations over 4 flows (three loopback UDP servers and one on port 53 of a private loopback address): client datagram on flow i, k replies from the destination of flow i, a chain of 3-8 replies one every T/4 or 3T/8 without any client datagram, a burst of 10-25 client datagrams on one flow, one every T/8 (longer than T, while the other flows are silent), wait T/8 .. 13T/8 (T = 320 ms, real time), datagrams to a destination no socket can be connected to (255.255.255.255:9, fe80::1), datagrams to a closed port; a real CONNECT _udp2 stream over in-memory HTTP/2 feeds the real codec, udp_pipe and direct UDP multiplexer; after every step: each destination received exactly its flows' payloads, concurrent flows use distinct outbound ports, every reply reaches the client labelled (flow destination -> flow source), the outbound_udp_sockets gauge lies between the flows surely alive (idle < 0.7 T, DNS flow not yet fully answered) and those possibly alive (idle < 1.3 T + tick), a datagram after sure expiry is delivered, a flow that was active less than T/2 ago keeps its outbound socket, the multiplexer stream stays open after per-flow faults, and all sockets are released at the end; non-trivial = an expiry followed by reuse of the same pair, or a fault on one flow followed by traffic on another".into()
+        "histories of 3-16 operations over 4 flows (three loopback UDP servers and one on port 53 of a private loopback address): client datagram on flow i, k replies from the destination of flow i, a chain of 3-8 replies one every T/4 or 3T/8 without any client datagram, a burst of 10-25 client datagrams on one flow, one every T/8 (longer than T, while the other flows are silent), wait T/8 .. 13T/8 (T = 320 ms, real time), datagrams to a destination no socket can be connected to (255.255.255.255:9, fe80::1), datagrams to a closed port, a flow of its own whose destination goes away and comes back on the same port (the pending ICMP error surfaces on the flow's read path) followed by another datagram on the same pair, which must arrive; a real CONNECT _udp2 stream over in-memory HTTP/2 feeds the real codec, udp_pipe and direct UDP multiplexer; after every step: each destination received exactly its flows' payloads, concurrent flows use distinct outbound ports, every reply reaches the client labelled (flow destination -> flow source), the outbound_udp_sockets gauge lies between the flows surely alive (idle < 0.7 T, DNS flow not yet fully answered) and those possibly alive (idle < 1.3 T + tick), a datagram after sure expiry is delivered, a flow that was active less than T/2 ago keeps its outbound socket, the multiplexer stream stays open after per-flow faults, and all sockets are released at the end; non-trivial = an expiry followed by reuse of the same pair, or a fault on one flow followed by traffic on another".into()
     }
     fn strategy(&self, _: Tier) -> BoxedStrategy<Case> {
         let op = prop_oneof![
@@ -526,6 +583,7 @@ impl Suite for FlowSuite {
             3 => (0u8..3, 0u8..6, 0u8..2).prop_map(|(i, n, g)| Op::ReplyChain(i, n, g)),
             2 => (0u8..3, 0u8..16).prop_map(|(i, n)| Op::BusyFlow(i, n)),
             2 => (0u8..2).prop_map(Op::IdleTogether),
+            1 => (0u8..2).prop_map(Op::DestRestart),
         ];
         prop::collection::vec(op, 3..=16).prop_map(|ops| Case { ops }).boxed()
     }
@@ -552,7 +610,7 @@ impl Suite for FlowSuite {
         let mut seen_fault = false;
         for op in &c.ops {
             match op {
-                Op::SendUnconnectable(_) | Op::SendClosedPort => seen_fault = true,
+                Op::SendUnconnectable(_) | Op::SendClosedPort | Op::DestRestart(_) => seen_fault = true,
                 Op::Send(_) if seen_fault => fault_then_traffic = true,
                 _ => {}
             }
@@ -581,6 +639,9 @@ impl Suite for FlowSuite {
                 }
             }
         }
+        if c.ops.iter().any(|o| matches!(o, Op::DestRestart(_))) {
+            v.push("destination-restart");
+        }
         if reuse {
             v.push("expiry-then-reuse");
         }
@@ -593,7 +654,7 @@ impl Suite for FlowSuite {
         v
     }
     fn required_classes(&self) -> Vec<&'static str> {
-        vec!["nontrivial", "expiry-then-reuse", "fault-then-traffic", "kept-alive-by-replies-then-reused", "idle-flow-next-to-a-busy-one"]
+        vec!["nontrivial", "expiry-then-reuse", "fault-then-traffic", "kept-alive-by-replies-then-reused", "idle-flow-next-to-a-busy-one", "destination-restart"]
     }
     fn check(&self, c: &Case) -> Verdict {
         let c = c.clone();
